@@ -462,6 +462,35 @@ class World:
         self.emit(op, {"err": err_name(err)})
         return h, err
 
+    def graph_roundtrip(self, c):
+        """prov_to_graph then graph_to_prov; observation = nodes, edges (canonical) and the resulting document"""
+        from prov.graph import prov_to_graph, graph_to_prov
+        from prov.model import ProvRecord
+        op = {"op": "graph_roundtrip", "c": c}
+        try:
+            g = prov_to_graph(self.conts[c])
+
+            def nj(n):
+                return [n.bundle is not None, n.get_type().localpart, n.identifier.uri]
+            nodes = [nj(n) for n in g.nodes()]
+            edges = []
+            for (u, v, data) in g.edges(data=True):
+                edges.append([nj(u), nj(v), proto.canon_record(data["relation"])])
+            back = graph_to_prov(g)
+            err = None
+        except Exception as e:  # noqa
+            g = back = None
+            err = e
+        out = {"err": err_name(err)}
+        h = None
+        if err is None:
+            out["nodes"] = nodes
+            out["edges"] = sorted(edges, key=proto.skey)
+            h = self.bind_cont(back)
+            op["as"] = h
+        self.emit(op, out)
+        return g, h, err
+
     def provn(self, c):
         """printer channel: the exact PROV-N text"""
         try:
@@ -555,6 +584,11 @@ def diff_outputs(ops, impl_outs, model_outs):
         if "fatal" in b:
             return i, "model-fatal: %s" % b["fatal"]
         proto.normalize_model_obs(b)
+        if ops[i]["op"] == "graph_roundtrip" and "edges" in b:
+            for e in b["edges"]:
+                if e is not None:
+                    proto.normalize_model_obs(e[2])
+            b = dict(b, edges=sorted(b["edges"], key=proto.skey))
         if ops[i]["op"] == "enc_xml" and b.get("tree") is not None:
             from . import xmltree
             b = {"tree": xmltree.canon_with_bundle_ns(b["tree"])}
